@@ -511,6 +511,19 @@ def gen_native_op(rnd):
         lambda: ["set", "xdef", rnd.choice([["s", 0], _P(rnd)])],
         lambda: ["validate", rnd.choice(["tup", "evt", "eith", "uni", "ttup"]), _tuple2(rnd, mode)],
         lambda: ["validate", "tup4", ["t", [_P(rnd), _P(rnd), ["n", 3], _P(rnd)]]],
+        lambda: ["set", "ci", rnd.choice([["digits", rnd.randrange(3)], ["b", 0], _P(rnd), ["n", 2.5]])],
+        lambda: ["set", "cf", rnd.choice([["digits", rnd.randrange(3)], ["b", 1], _P(rnd)])],
+        lambda: ["set", "cs", rnd.choice([["b", 0], ["s", 1], _P(rnd), ["n", 1.5]])],
+        lambda: ["set", "mp", rnd.choice([["mapkey", 0], ["mapkey", 1], ["s", 0], _P(rnd)])],
+        lambda: ["get", "mp"], lambda: ["del", "mp"],
+        lambda: ["set", "enum", rnd.choice([["enum", 0], ["enum", 1], ["enum", 2], _P(rnd)])],
+        lambda: ["set", "pl", rnd.choice([["pfx", 0], ["pfx", 1], ["pfx", 2], _P(rnd)])],
+        lambda: ["set", "lb", ["l", [_tuple2(rnd, "coerce") for _ in range(rnd.randint(0, 3))]]],
+        lambda: ["append", "lb", _tuple2(rnd, mode)],
+        lambda: ["vkeep", "tup", _tuple2(rnd, mode)], lambda: ["vkeep", "tup", _tuple2(rnd, mode)],
+        lambda: ["vkeep", "tup4", ["t", [_P(rnd), rnd.choice([_P(rnd), ["b", 0]]),
+                                         rnd.choice([["n", 3], ["n", 2.5], ["s", 0], ["b", 1]]), rnd.choice([_P(rnd), ["s", 1]])]]],
+        lambda: ["vkeep", "tint", ["t", [rnd.choice([["n", 3], ["b", 0], ["s", 0]]), _P(rnd)]]],
         lambda: ["default", rnd.choice(["a", "lst", "dct", "st", "leaf", "tup"])],
         lambda: ["get", rnd.choice(["a", "tup", "tup4", "eith", "inst", "lst", "ltup", "dct", "st", "ro", "expr", "ev"])],
         lambda: ["del", rnd.choice(["a", "tup", "tup4", "eith", "inst", "lst", "dct", "i", "s", "prop", "d_set"])],
@@ -534,7 +547,10 @@ def native_corpus():
         ["set", "i", ["b", 0]], ["set", "f", ["b", 1]], ["set", "rng", ["b", 0]], ["set", "s", ["s", 0]],
         ["set", "dct", ["d", [[P0, P1], [["b", 0], ["s", 1]]]]], ["setitem", "dct", P2, 0], ["clear", "dct"],
         ["set", "st", ["set", [P0, P1]]], ["add", "st", P2], ["set", "ro", P0], ["set", "ro", P1],
-        ["set", "inst", ["leaf", P0]], ["set", "inst", P0], ["del", "tup"], ["del", "tup4"], ["gc"]])]
+        ["set", "inst", ["leaf", P0]], ["set", "inst", P0], ["del", "tup"], ["del", "tup4"], ["gc"],
+        ["vkeep", "tup", ["t", [P0, ["n", 3]]]], ["vkeep", "tup", ["t", [P0, ["n", 1.5]]]], ["vkeep", "tup", ["t", [P0, ["s", 0]]]],
+        ["vkeep", "tup4", ["t", [P0, P1, ["n", 2], P2]]], ["vkeep", "tup4", ["t", [P0, P0, ["s", 0], P2]]],
+        ["vkeep", "tup4", ["t", [P0, P1, ["n", 2.5], P0]]], ["vkeep", "tint", ["t", [["b", 0], P1]]]])]
 
 
 def native_stream(ctx, cases, sanitize=False, tag="native"):
@@ -565,6 +581,45 @@ def native_stream(ctx, cases, sanitize=False, tag="native"):
         ctx.fail("harness/" + tag, "native cases could not be evaluated: %s" % e.log[-400:], dict(error=e.log[-2000:]),
                  no_input=True)
         return
+    # the Tuple validation loop against its Gallina model (C18/Tuple.v): items as observed, result kept alive
+    tcs, tsrc = [], []
+    for ci, (c, ob) in enumerate(zip(cases, obs)):
+        for si, st in enumerate(ob):
+            t = st.get("tuple")
+            if t is None:
+                continue
+            items = [(b, C("IConv", w) if r == "conv" else C("ISame" if r == "same" else "IFail")) for b, r, w in t["items"]]
+            deltas = [(row[0], row[1]) for row in st["rows"]] + [(100, t["tv_delta"])]
+            tcs.append((100, items, t["kind"], deltas))
+            tsrc.append((ci, si))
+    if tcs:
+        try:
+            tcorr, tlaw = coqrun.eval_cases(ctx.scratch, tag + "_tuple", NATIVE_HEADER.replace("C18.Law.", "C18.Law C18.Tuple."),
+                                            "C18.Tuple.tcase", tcs,
+                                            ["C18.Tuple.tuple_corr_codes", "C18.Tuple.tuple_law_codes"], shard=1500)
+        except coqrun.CoqError as e:
+            tcorr, tlaw = None, None
+            ctx.fail("harness/" + tag + "-tuple", "tuple cases could not be evaluated: %s" % e.log[-400:],
+                     dict(error=e.log[-2000:]), no_input=True)
+        if tcorr is not None:
+            for i, code in tlaw[:1]:
+                ci, si = tsrc[i]
+                ctx.fail("native-tuple-validation-not-neutral/%s" % cases[ci]["ops"][si][1],
+                         "validate_trait_tuple_check: the result does not own exactly the references it holds: op %r, "
+                         "observed %r" % (cases[ci]["ops"][si], obs[ci][si]),
+                         dict(kind="native", case=dict(ops=cases[ci]["ops"][:si + 1]), step=si, clause=1,
+                              sanitized=bool(sanitize), impl_obs=obs[ci][:si + 1]))
+            ctx.obligation("correspondence C18.Tuple.tuple_corr_codes (ttc_loop ledger = getrefcount deltas of kept "
+                           "validation results%s)" % (", ASan+UBSan" if sanitize else ""), not tcorr,
+                           "%d tuple validations; %d disagree" % (len(tcs), len(tcorr)))
+            if tcorr and not tlaw:
+                i, code = tcorr[0]
+                ci, si = tsrc[i]
+                ctx.fail("corr/C18.Tuple/field%d" % code, "tuple-validation model and implementation disagree (field %d) on "
+                         "op %r: %r" % (code, cases[ci]["ops"][si], obs[ci][si].get("tuple")),
+                         dict(kind="native", case=dict(ops=cases[ci]["ops"][:si + 1]), step=si, impl_obs=obs[ci][:si + 1]),
+                         no_input=True)
+            ctx.count("native-tuple-validations", len(tcs))
     nsteps = 0
     for c, ob in zip(cases, obs):
         nsteps += len(ob)
@@ -585,7 +640,8 @@ def native_stream(ctx, cases, sanitize=False, tag="native"):
         # shortest failing prefix is the history itself up to the step
         rep_case = dict(ops=cases[i]["ops"][:step + 1])
         ctx.fail(key, "native path: clause %s fails at step %d op %r (outcome %s): (object, refcount delta, held before, "
-                 "held after) = %r; objects 0-3 instances, 4-5 run-time strings, 6-7 big ints, 8-9 delegate prefix strings"
+                 "held after) = %r; objects 0-3 instances, 4-5 run-time strings, 6-7 big ints, 8-9 delegate prefix strings, "
+                 "10-11 Map keys, 12-13 Map values, 14-15 Enum members"
                  % (CLAUSE.get(clause, clause), step, op, obs[i][step]["out"], bad),
                  dict(kind="native", case=rep_case, step=step, clause=clause, sanitized=bool(sanitize),
                       impl_obs=obs[i][:step + 1]))
@@ -601,12 +657,15 @@ FUZZ_FAMILIES = ["validate%d" % k for k in range(0, 25)] + ["default", "property
 def descriptor_stream(ctx, sanitize=False):
     """A FIXED corpus (seeds do not depend on --seed, so the outcome on a given tree is the same in every run):
     per family, descriptors are tried in a subprocess; after a crash the family is re-run without the crashing
-    head (first component) so that every crashing head of the family is reported once."""
+    head (first component) so that every crashing head of the family is reported once.  Families are independent
+    and run concurrently; results are reported in family order."""
+    import concurrent.futures
     seeds, n = ((1,), 250) if ctx.tier == "quick" else ((1, 2, 3), 300)
-    crashes, tried, accepted = [], 0, 0
-    prog = os.path.join(ctx.scratch, "fuzz_progress%s.txt" % ("_asan" if sanitize else ""))
-    for fam in FUZZ_FAMILIES:
-        skip = []
+    ctx.build_impl(sanitize)            # build once, before the worker threads need it
+
+    def one_family(fam):
+        prog = os.path.join(ctx.scratch, "fuzz_%s%s.txt" % (fam, "_asan" if sanitize else ""))
+        skip, crashes, tried, accepted, harness = [], [], 0, 0, None
         for _round in range(8):
             crashed = False
             for seed in seeds:
@@ -617,9 +676,8 @@ def descriptor_stream(ctx, sanitize=False):
                     accepted += out["accepted"]
                     continue
                 if rc == 124 or (rc == 1 and "Traceback" in err and "Sanitizer" not in err):
-                    ctx.fail("harness/descriptor-stream", "descriptor driver failed rc=%s: %s" % (rc, err[-400:]),
-                             dict(error=err[-2000:]), no_input=True)
-                    return
+                    harness = "descriptor driver failed rc=%s: %s" % (rc, err[-400:])
+                    return crashes, tried, accepted, harness
                 try:
                     lines = open(prog).read().split("\n")
                     head, desc = lines[0], lines[1]
@@ -629,18 +687,31 @@ def descriptor_stream(ctx, sanitize=False):
                     head_v = int(head)
                 except ValueError:
                     head_v = head
-                crashes.append((fam, head, desc))
-                ctx.fail("crash/descriptor/%s/%s" % (fam, head),
-                         "the interpreter died (rc=%s%s) using a descriptor that the C constructor ACCEPTED: family %s, "
-                         "descriptor %s :: %s" % (rc, ", sanitised build" if sanitize else "", fam, desc[:200],
-                                                  err[-300:].replace("\n", " | ")),
-                         dict(kind="descriptor", family=fam, seed=seed, n=n, skip=list(skip), descriptor=desc,
-                              sanitized=bool(sanitize), returncode=rc, stderr_tail=err[-2000:]))
+                crashes.append(dict(fam=fam, head=head, desc=desc, rc=rc, err=err, seed=seed, skip=list(skip)))
                 skip.append(head_v)
                 crashed = True
                 break
             if not crashed:
                 break
+        return crashes, tried, accepted, harness
+
+    with concurrent.futures.ThreadPoolExecutor(max_workers=4) as ex:
+        results = list(ex.map(one_family, FUZZ_FAMILIES))
+    crashes, tried, accepted = [], 0, 0
+    for fam, (cr, t, a, harness) in zip(FUZZ_FAMILIES, results):
+        tried += t
+        accepted += a
+        if harness:
+            ctx.fail("harness/descriptor-stream", harness, dict(error=harness), no_input=True)
+            return
+        for c in cr:
+            crashes.append((c["fam"], c["head"], c["desc"]))
+            ctx.fail("crash/descriptor/%s/%s" % (c["fam"], c["head"]),
+                     "the interpreter died (rc=%s%s) using a descriptor that the C constructor ACCEPTED: family %s, "
+                     "descriptor %s :: %s" % (c["rc"], ", sanitised build" if sanitize else "", c["fam"], c["desc"][:200],
+                                              c["err"][-300:].replace("\n", " | ")),
+                     dict(kind="descriptor", family=c["fam"], seed=c["seed"], n=n, skip=c["skip"], descriptor=c["desc"],
+                          sanitized=bool(sanitize), returncode=c["rc"], stderr_tail=c["err"][-2000:]))
     unknown = [c for c in crashes if not any(e.get("status") == "known" and e.get("key") == "crash/descriptor/%s/%s" % (
         c[0], c[1]) for e in ctx.known)]
     ctx.obligation("no crash using descriptors accepted by the low-level CTrait constructors (%s build)" % (
@@ -652,8 +723,19 @@ def descriptor_stream(ctx, sanitize=False):
     ctx.cov["evaluations"] += tried
 
 
+def _timed(ctx, name, f, *a, **k):
+    import time
+    t0 = time.time()
+    r = f(*a, **k)
+    ctx.cov.setdefault("stream_seconds", {})[name] = round(time.time() - t0, 1)
+    return r
+
+
 def run(ctx):
+    import time
+    _t0 = time.time()
     ok, log = ctx.proofs(PROPS)
+    ctx.cov.setdefault("stream_seconds", {})["proofs"] = round(time.time() - _t0, 1)
     ctx.cov["level_detail"] = ("proof (partial): table indices and the reference-count ledger are theorems; "
                                "out-of-bounds / use-after-free / undefined behaviour elsewhere in ctraits.c is "
                                "searched for by running generated programs (sanitised build in the thorough tier), "
@@ -675,7 +757,8 @@ def run(ctx):
                        "reference count; distinct = distinct (configuration, history)")
     rnd = random.Random(ctx.seed)
     if ctx.replay:
-        rep = json.load(open(ctx.replay))["replay"]
+        rep_file = json.load(open(ctx.replay))
+        rep = rep_file["replay"]
         if rep.get("kind") == "native":
             native_stream(ctx, [rep["case"]], sanitize=bool(rep.get("sanitized")), tag="replay")
         elif rep.get("kind") == "descriptor":
@@ -684,8 +767,8 @@ def run(ctx):
                                                             progress=os.path.join(ctx.scratch, "fuzz_replay.txt")),
                                           sanitize=bool(rep.get("sanitized")))
             if rc != 0:
-                ctx.fail("crash/descriptor/%s/replay" % rep["family"], "replay: the interpreter died again (rc=%s) on "
-                         "descriptor %s" % (rc, rep["descriptor"]), rep)
+                ctx.fail(rep_file.get("key") or "crash/descriptor/%s/replay" % rep["family"],
+                         "replay: the interpreter died again (rc=%s) on descriptor %s" % (rc, rep["descriptor"]), rep)
         elif rep.get("kind") == "crash-program":
             crash_stream(ctx, [rep["program"]], sanitize=bool(rep.get("sanitized")), tag="replay")
         elif rep.get("kind") == "ctrait":
@@ -697,24 +780,24 @@ def run(ctx):
         proof_gate(ctx, ok, log, PROPS)
         return
     # --- T3 -------------------------------------------------------------------------------
-    t3_ok, t3_data, t3_msg = t3(ctx)
+    t3_ok, t3_data, t3_msg = _timed(ctx, "t3", t3, ctx)
     # --- ledger ---------------------------------------------------------------------------
     n, maxlen = (700, 10) if ctx.tier == "quick" else (8000, 25)
     cases = corpus() + [gen_case(rnd, ctx, maxlen) for _ in range(n)]
     for c in cases[:1] + cases[-2:]:
         ctx.sample(c)
-    ledger_stream(ctx, cases)
+    _timed(ctx, "ledger", ledger_stream, ctx, cases)
     # --- trait definition objects in a subprocess (F9 trigger: validated Property traits) --------
     have_gen = t3_data is not None and os.path.exists(os.path.join(ctx.scratch, "CTablesGen.vo"))
-    ctrait_stream(ctx, t3_data, have_gen, modes=CT_MODES_C18)
+    _timed(ctx, "ctrait", ctrait_stream, ctx, t3_data, have_gen, modes=CT_MODES_C18)
     # --- crash stream -----------------------------------------------------------------------
     npr, nops = (24, 120) if ctx.tier == "quick" else (160, 250)
     programs = [dict(index=i, seed=rnd.randrange(1 << 30), n=nops) for i in range(npr)]
-    crash_stream(ctx, programs)
-    descriptor_stream(ctx)
+    _timed(ctx, "crash", crash_stream, ctx, programs)
+    _timed(ctx, "descriptor", descriptor_stream, ctx)
     nn, nlen = (150, 25) if ctx.tier == "quick" else (1500, 40)
     ncases = native_corpus() + [dict(ops=[gen_native_op(rnd) for _ in range(rnd.randint(5, nlen))]) for _ in range(nn)]
-    native_stream(ctx, ncases)
+    _timed(ctx, "native", native_stream, ctx, ncases)
     if ctx.tier == "thorough":
         # the same streams on the clang ASan+UBSan build: a report or a dead process is a violation
         ctx.build_impl(sanitize=True)
